@@ -11,6 +11,9 @@ LOCAL_CORE = [
     '"\\é"'.encode(), "иван".encode(), "用户".encode(), b"\xff", b"a\xc3", b"\xc0\x80", b"\xed\xa0\x80", "😀".encode(),
     b"a" * 63, b"a" * 64, b"a" * 65, b'"' + b"a" * 62 + b'"', b'"' + b"a" * 63 + b'"', (b"a." * 32)[:-1], b"a." * 32 + b"a",
     b"a" * 64 + b".", b" a", b"a ", b"\ta", b"a\r\n", b'"a"\r\n', b"a\x7f", b"a\x80",
+    # ill-formed UTF-8 whose *decoded value* would be harmless or a control: overlongs, boundaries, > U+10FFFF
+    b"\xc1\xbf", b"a\xc0\xafb", b"\xe0\x9f\xbf", b"\xf0\x8f\xbf\xbf", b"\xf4\x90\x80\x80", b'"\xc1\xbf"', b"\xc2\x7f", b"\xdf\xc0",
+    b"\xef\xbf\xbf", b"\xf4\x8f\xbf\xbf", b"\xc2\x80", b"\xe0\xa0\x80", b"\xf0\x90\x80\x80",
 ]
 
 DOMAIN_CORE = [
